@@ -1,4 +1,4 @@
-import Infretis.Lemmas.GeomFlow
+import Infretis.Lemmas.GeomFrames
 /-!
 # C20 — order parameters respect the symmetries of what they measure
 
@@ -1017,5 +1017,193 @@ theorem pathReverse_twice (rv : ReverseVariant) (var : Variant) (revV : Bool) (f
         fun f : PFrame => if true = true then { f with velRev := !f.velRev } else f) = id := by
       funext f; cases f; simp
     rw [this]; simp
+
+/-! ## Follow-up pass: the frames the library really makes, 2-D boxes, periodic parameters without a box
+
+WHICH FRAMES.  The `Path.reverse` theorems above (`path_reverse_*`, `pathReverse_frames`, `pathReverse_repaired_negates`,
+`pathReverse_asIs_not_negated`, `pathReverse_velocity_order_counterexample`) speak about HAND-BUILT frames: frames that carry
+(N,3) position and velocity arrays.  The library itself never puts such a frame into a path:
+`EngineBase.snapshot_to_system` gives every engine-made frame `pos = vel = None`, `load_path` gives every loaded frame the
+empty arrays of a bare `System()`.  The theorems of this section are about those frames (`Model/GeomFrames.lean`,
+`LFrame`, `pathReverseL`): with a velocity-dependent order function `Path.reverse` RAISES — TypeError on engine-made
+frames, IndexError on loaded ones — so the question "is the sign flipped" does not even arise on library frames; it
+returns (stored orders mirrored, flags toggled) exactly when nothing is recomputed. -/
+
+/-- mirror image with toggled flags, cut at `maxlen`: what `Path.reverse` builds before any recomputation -/
+def mirroredLib (revV : Bool) (maxlen : Option Nat) (frames : List LFrame) : List LFrame := mirroredL revV maxlen frames
+
+/-- **Engine-made paths: `Path.reverse(order_function)` raises TypeError** for EVERY built-in order function that is
+    flagged velocity dependent (and would for any built-in class: all six subscript `system.pos` / `system.vel` in their
+    first statement), whatever the geometry, the box, the flags: the path must only be non-empty and `maxlen ≠ 0`. -/
+theorem pathReverse_engine_made_raises (var : Variant) (op : OP) (maxlen : Option Nat) (frames : List LFrame)
+    (hne : frames ≠ []) (hm : maxlen ≠ some 0) (hall : ∀ f ∈ frames, f.arrays = none) :
+    pathReverseL var (some (op, true)) true maxlen frames = .error .typeError := by
+  unfold pathReverseL
+  simp only [Bool.and_self, if_true]
+  exact mapM_all_error _ _ _ (mirroredL_ne_nil true maxlen frames hne hm)
+    (fun g hg => recomputeLFrame_noArrays var op g (mirroredL_arrays true maxlen frames none hall g hg))
+
+/-- **Loaded paths: IndexError** (bare `System()`: `np.zeros(0)` arrays; the 3×3 zero box is never reached) -/
+theorem pathReverse_loaded_raises (var : Variant) (op : OP) (maxlen : Option Nat) (frames : List LFrame)
+    (hne : frames ≠ []) (hm : maxlen ≠ some 0) (hall : ∀ f ∈ frames, f.arrays = some ([], [])) :
+    pathReverseL var (some (op, true)) true maxlen frames = .error .index := by
+  unfold pathReverseL
+  simp only [Bool.and_self, if_true]
+  exact mapM_all_error _ _ _ (mirroredL_ne_nil true maxlen frames hne hm)
+    (fun g hg => recomputeLFrame_empty var op g (mirroredL_arrays true maxlen frames _ hall g hg))
+
+/-- **When it returns**: no order function, `rev_v = False`, or a position-type function (`velocity_dependent = False`,
+    e.g. Distance — `calculate` is never called, which is why reversing works for them on frames without arrays):
+    the stored orders in mirrored sequence, flags toggled iff `rev_v`, cut at `maxlen`. -/
+theorem pathReverse_library_no_recompute (var : Variant) (fn : Option (OP × Bool)) (revV : Bool) (maxlen : Option Nat)
+    (frames : List LFrame) (h : fn = none ∨ revV = false ∨ ∃ op, fn = some (op, false)) :
+    pathReverseL var fn revV maxlen frames = .ok (mirroredLib revV maxlen frames) := by
+  unfold pathReverseL mirroredLib mirroredL
+  rcases h with h | h | ⟨op, h⟩
+  · subst h; rfl
+  · subst h; cases fn with
+    | none => rfl
+    | some x => simp
+  · subst h; simp
+
+/-- **Converse**: if `Path.reverse` with a velocity-dependent function returns at all, every frame it kept carries
+    arrays — no engine-made frame is among them. -/
+theorem pathReverse_ok_needs_arrays (var : Variant) (op : OP) (maxlen : Option Nat) (frames out : List LFrame)
+    (h : pathReverseL var (some (op, true)) true maxlen frames = .ok out) :
+    ∀ g ∈ mirroredLib true maxlen frames, g.arrays.isSome = true := by
+  unfold pathReverseL at h
+  simp only [Bool.and_self, if_true] at h
+  exact mapM_ok_forall _ _ (fun a b hab => recomputeLFrame_ok_arrays var op a b hab) _ out h
+
+/-- three engine-made frames (orders 1, 2, 3 of `Velocity(0,'x')`, 3-component box) and three loaded ones -/
+def enginePath : List LFrame :=
+  [snapshotToSystem (.flat [4, 4, 4]) [1] false, snapshotToSystem (.flat [4, 4, 4]) [2] false,
+   snapshotToSystem (.flat [4, 4, 4]) [3] false]
+def loadedPath : List LFrame := [loadedFrame [1] false, loadedFrame [2] true, loadedFrame [3] false]
+
+example : enginePath ≠ [] ∧ (some 100 : Option Nat) ≠ some 0 ∧ (∀ f ∈ enginePath, f.arrays = none) ∧
+    OP.velocityDependent (.velocity 0 0) = true ∧ OP.velocityDependent (.distancevel 0 1 true) = true ∧
+    pathReverseL Variant.current (some (.velocity 0 0, true)) true (some 100) enginePath = .error .typeError ∧
+    pathReverseL Variant.current (some (.distancevel 0 1 true, true)) true (some 100) enginePath = .error .typeError ∧
+    pathReverseL Variant.current (some (.velocity 0 0, true)) true (some 100) loadedPath = .error .index ∧
+    (pathReverseL Variant.current (some (.distance 0 1 true, false)) true (some 100) enginePath).map
+      (fun fs => fs.map (fun f => (f.velRev, f.order))) = .ok [(true, .stored [3]), (true, .stored [2]), (true, .stored [1])] ∧
+    (pathReverseL Variant.current none true (some 2) loadedPath).map
+      (fun fs => fs.map (fun f => (f.velRev, f.order))) = .ok [(true, .stored [3]), (false, .stored [2])] := by
+  refine ⟨?_, ?_, ?_, ?_, ?_, ?_, ?_, ?_, ?_, ?_⟩ <;> decide +kernel
+
+/-- a path whose LAST frame carries arrays and whose others are engine-made: the recomputation starts at the last
+    frame (first of the new path), succeeds there and raises at the next one — the first failing frame decides -/
+example : pathReverseL Variant.current (some (.velocity 0 0, true)) true none
+      [snapshotToSystem (.flat [4, 4, 4]) [1] false, ⟨some ([⟨0, 0, 0⟩], [⟨3, 0, 0⟩]), .none, false, .stored [3]⟩]
+    = .error .typeError ∧
+    pathReverseL Variant.current (some (.velocity 0 0, true)) true none
+      [⟨some ([⟨0, 0, 0⟩], [⟨3, 0, 0⟩]), .none, false, .stored [3]⟩] =
+        .ok [⟨some ([⟨0, 0, 0⟩], [⟨3, 0, 0⟩]), .none, true, .recomputed [3]⟩] := by
+  constructor <;> decide +kernel
+
+/-- **Hand-built frames are the special case** the earlier theorems are about: on a frame that carries arrays and a
+    1-D box (or none), `calculate` is the `value` of `Model/Geom.lean`. -/
+theorem calcFrame_hand_built (var : Variant) (op : OP) (f : PFrame) :
+    calcFrame var op f.toL = liftX (value var op f.sys) := calcFrame_toL var op f
+
+example : calcFrame .asIs (.velocity 0 0) (PFrame.toL ⟨revFrame.sys, false, .stored [3]⟩) = .ok [3] := by decide +kernel
+
+/-! ### a 3×3 box (`System()` default, `read_cp2k_box` without CELL) -/
+
+/-- **Periodic classes raise ValueError on a 3×3 box** once their position indices are legal (IndexError wins
+    otherwise); non-periodic classes, Position and Velocity never look at the box. -/
+theorem calculate_box2D (var : Variant) (op : OP) (pos vel : List V3) (m : Mat3) :
+    (op.periodic = true → posAccess op pos = .ok () → valueB var op pos vel (.mat m) = .error .valueError) ∧
+    (op.periodic = true → posAccess op pos = .error .index → valueB var op pos vel (.mat m) = .error .index) ∧
+    (op.periodic = false → valueB var op pos vel (.mat m) = liftX (value var op ⟨pos, vel, none⟩)) := by
+  rw [← periodicFlag_eq]
+  refine ⟨fun hp ha => ?_, fun hp ha => ?_, fun hp => ?_⟩
+  · simp [valueB, hp, ha]
+  · simp [valueB, hp, ha, Err.toX]
+  · simp [valueB, hp]
+
+example : (OP.distance 0 1 true).periodic = true ∧ posAccess (.distance 0 1 true) exSys.pos = .ok () ∧
+    valueB Variant.current (.distance 0 1 true) exSys.pos exSys.vel (.mat ⟨⟨100, 0, 0⟩, ⟨0, 100, 0⟩, ⟨0, 0, 100⟩⟩)
+      = .error .valueError ∧
+    valueB Variant.current (.distance 0 9 true) exSys.pos exSys.vel (.mat ⟨⟨100, 0, 0⟩, ⟨0, 100, 0⟩, ⟨0, 0, 100⟩⟩)
+      = .error .index ∧
+    valueB Variant.current (.distance 0 1 false) exSys.pos exSys.vel (.mat ⟨⟨100, 0, 0⟩, ⟨0, 100, 0⟩, ⟨0, 0, 100⟩⟩)
+      = .ok [37 / 4 + 1 / 16] := by
+  refine ⟨?_, ?_, ?_, ?_, ?_⟩ <;> decide +kernel
+
+/-! ### rotations, second statement -/
+
+/-- **Rotation invariance whenever no box is applied**: non-periodic classes, AND periodic ones on a System without a
+    box (`system.box is None`: the code skips the wrap).  `rotation_invariant` is the first disjunct. -/
+theorem rotation_invariant_nobox (var : Variant) (op : OP) (hrel : op.relative = true) (R : Mat3) (hR : IsRotation R)
+    (s : Sys) (h : op.periodic = false ∨ s.box = none) :
+    value var op (rotate R s) = value var op s := by
+  rcases h with h | h
+  · exact rotation_invariant var op hrel h R hR s
+  · have hr : (rotate R s).box = none := h
+    rw [value_nobox var op (rotate R s) hr, value_nobox var op s h]
+    exact rotation_invariant var op.nonPeriodic (by rw [nonPeriodic_relative]; exact hrel) (nonPeriodic_periodic op) R hR s
+
+/-- the 3-4-5 rotation about z -/
+def rotZ345 : Mat3 := ⟨⟨3 / 5, -4 / 5, 0⟩, ⟨4 / 5, 3 / 5, 0⟩, ⟨0, 0, 1⟩⟩
+/-- two atoms 3 apart along x in a 4×4×4 box (minimum image: 1) -/
+def rotSys : Sys := { pos := [⟨0, 0, 0⟩, ⟨3, 0, 0⟩], vel := [⟨0, 0, 0⟩, ⟨0, 0, 0⟩], box := some [4, 4, 4] }
+
+/-- **The guard is needed**: with a box, a periodic parameter is NOT invariant under rotating the atoms alone (the box
+    axes stay): rotating (3,0,0) by the 3-4-5 rotation about z gives (9/5, 12/5, 0), whose minimum image in the 4-box is
+    (9/5, −8/5, 0): squared distance 29/5 instead of 1.  (Physically right — an orthogonal cell has no such symmetry —
+    and outside the property once read with its quantifier "orthogonal boxes"; stated so the guard is not silent.) -/
+theorem rotation_periodic_counterexample :
+    ¬ (∀ (var : Variant) (op : OP) (R : Mat3) (s : Sys), op.relative = true → IsRotation R →
+        value var op (rotate R s) = value var op s) := by
+  intro h
+  have hR : IsRotation rotZ345 := by constructor <;> decide +kernel
+  have := h Variant.current (.distance 0 1 true) rotZ345 rotSys rfl hR
+  revert this
+  decide +kernel
+
+example : value Variant.current (.distance 0 1 true) rotSys = .ok [1] ∧
+    value Variant.current (.distance 0 1 true) (rotate rotZ345 rotSys) = .ok [29 / 5] ∧
+    (OP.distance 0 1 true).periodic = true ∧ ({ rotSys with box := none } : Sys).box = none ∧
+    value Variant.current (.distance 0 1 true) (rotate rotZ345 { rotSys with box := none })
+      = value Variant.current (.distance 0 1 true) { rotSys with box := none } := by
+  refine ⟨?_, ?_, ?_, ?_, ?_⟩ <;> decide +kernel
+
+/-! ### the base class through `create_orderparameter` -/
+
+/-- **`velocity` key**: `class = "orderparameter"` makes a base-class object whose `velocity_dependent` is the value of
+    the `velocity` key (False when absent); for every other class the key is never looked at. -/
+theorem create_base_velocity_flag (st : Settings) (v : Option Bool) :
+    (st.cls.map Char.toLower = "orderparameter" → createOrderParameterX st v = .ok (.base (v.getD false))) ∧
+    (st.cls.map Char.toLower ≠ "orderparameter" →
+      createOrderParameterX st v = createOrderParameterX st none) := by
+  constructor
+  · intro hk
+    have : createOrderParameter st = .ok (.obj .base) := by
+      unfold createOrderParameter; simp [hk, orderMapKeys]
+    simp [createOrderParameterX, this]
+  · intro hk
+    have hb : ∀ o, createOrderParameter st = .ok (.obj o) → o ≠ .base := by
+      intro o ho hob
+      subst hob
+      have hw := create_notBase st
+      exact hw hk ho
+    unfold createOrderParameterX
+    cases hc : createOrderParameter st with
+    | error e => rfl
+    | ok c =>
+      cases c with
+      | external => rfl
+      | obj o =>
+        cases o with
+        | base => exact absurd rfl (hb _ hc)
+        | _ => rfl
+
+example : createOrderParameterX ⟨"OrderParameter", none, none, none⟩ (some true) = .ok (.base true) ∧
+    createOrderParameterX ⟨"orderparameter", none, none, none⟩ none = .ok (.base false) ∧
+    createOrderParameterX ⟨"Distance", some (.seq [.int 0, .int 1]), none, none⟩ (some true)
+      = .ok (.obj (.distance (.seq [.int 0, .int 1]) true)) := by
+  refine ⟨?_, ?_, ?_⟩ <;> decide +kernel
 
 end Infretis.C20
